@@ -112,7 +112,9 @@ def judge_placement(v, cfg, fmt, w, h, ppem, box, adv_px, adv_fu, shape, where):
     def near(x, fu, tol):
         return abs(x - fu * k) <= tol + 1e-9 or abs(x - fu * kappa) <= tol + 1e-9
 
-    tol_v = 2.0 if (top >= 127 or top <= -128) else 1.0
+    # the bitmap is h px tall, the em box emh*k px: that unavoidable mismatch comes on top of the one-pixel rounding
+    emh_ = cfg["ascender"] - cfg["descender"]
+    tol_v = (2.0 if (top >= 127 or top <= -128) else 1.0) + min(abs(h - emh_ * k), abs(h - emh_ * kappa) + 0.5, 1.0)
     v.margin = max(v.margin, min(abs(top - cfg["ascender"] * k), abs(top - cfg["ascender"] * kappa)) / tol_v)
     if not near(top, cfg["ascender"], tol_v):
         v.fail("vertical-placement", "top", dict(where, top=top, want_k=cfg["ascender"] * k, want_kappa=cfg["ascender"] * kappa, ppem=ppem, cfg=cfg))
@@ -152,6 +154,8 @@ def representable(cfg, fmt, imgs):
                 return False
             k = min(ppems) / cfg["upem"]
             if cfg["ascender"] * k > 128.5 or cfg["ascender"] * k < -129.5:
+                return False
+            if cfg["descender"] * k < -128.5:  # CBLC SbitLineMetrics.descender is an int8
                 return False
             if (adv_fu * h / emh - w) / 2 > 128.5:
                 return False
